@@ -71,6 +71,8 @@ def lb_config(balancers=('heap', 'aperture')):
       'aperture': aperture,
       # the provider names one of the members' additional endpoints (zk://...#name style) or uses the service endpoint
       'endpoint_name': st.sampled_from([None, None, 'aux']),
+      # the type of the endpoints the provider hands out: the library's Endpoint class, or a (named) tuple of host and port
+      'endpoint_type': st.sampled_from([None, None, None, 'tuple']),
       # 0 = every endpoint once; k > 0 = one endpoint appears twice in the initial list
       'initial_dup': st.sampled_from([0, 0, 0, 1, 2, 5]),
   })
